@@ -795,14 +795,19 @@ def library_oracle_(ctx, n, config, floor0):
         ctx.case(case, kind="lib:%s:%s:f%d" % (kind, style, dt))
         done += 1
         tags = dict(computer="si", tracer="library", style=style, bank=kind)
+        strict = bool(flags["use_log"]) and bool(silent_tail)
+        if strict:
+            case["caller_fp_state"] = "errstate(divide/invalid=raise) + RuntimeWarning as error"
+            ctx.count("strict_fp_state")
         try:
-            full = comp.compute_full(x)
-            parts, off = [], 0
-            for c in chunks:
-                parts.append(comp.compute_chunk(x[off : off + c]))
-                off += c
-            parts.append(comp.finalize())
-            st = np.concatenate(parts)
+            with common.strict_fp(strict):
+                full = comp.compute_full(x)
+                parts, off = [], 0
+                for c in chunks:
+                    parts.append(comp.compute_chunk(x[off : off + c]))
+                    off += c
+                parts.append(comp.finalize())
+                st = np.concatenate(parts)
         except Exception as e:
             if comp.started:
                 try:
